@@ -802,6 +802,8 @@ def gen_clone_scripts(tier, seed, variant):
     out = [gen_map.make_script(rng, f"c{seed}_{i}", clone_ops=True, kind=rng.choice(["map-drop", "map-drop", "map-plain", "map-nc"])) for i in range(n)]
     # clone_from between two separately constructed maps (two allocator instances), both directions
     out += [gen_map.make_two_allocator_script(rng, f"c2a{seed}_{i}") for i in range(n // 6)]
+    # equal capacity(), different bucket counts (one side half emptied by single removals): deterministic
+    out += [gen_map.make_clone_from_capacity_script(rng, f"cq{seed}_{i}", kind=k) for i, k in enumerate(["map-drop", "map-plain"])]
     return "".join(out)
 
 def check_c02(run):
